@@ -1,0 +1,14 @@
+//go:build verif
+
+package context
+
+import (
+	"github.com/lindb/lindb/models"
+	"github.com/lindb/lindb/sql/stmt"
+)
+
+// VerifCalcTimeRangeAndInterval exposes calcTimeRangeAndInterval, the query planner step that
+// fixes the storage interval, the query interval and the aligned time range (verification hook).
+func VerifCalcTimeRangeAndInterval(statement *stmt.Query, cfg models.Database) {
+	calcTimeRangeAndInterval(statement, cfg)
+}
